@@ -689,6 +689,30 @@ def _p_centroid_pad(c):
     return None
 
 
+@pred('slices_az')
+def _p_slices_az(c):
+    """azimuthal statistics of Slices resample the data about the coordinate zero: for the linear map z = x + 2 y (exact under
+    linear interpolation) the average / maximum over the azimuth at radius rho is rho * mean / max of (cos + 2 sin), for every
+    radius inside the array"""
+    co = _impl()[1]
+    m, n = c['shape']
+    dx = c['dx']
+    x, y = co.make_xy_grid((m, n), dx=dx)
+    r = _impl()[4].RichData(1 * x + 2 * y, dx, 1.0)
+    s = r.slices()
+    rho, avg = s.azavg
+    _, mx = s.azmax
+    phi = np.linspace(0, 2 * np.pi, m)
+    xv, yv = x[0], y[:, 0]
+    rin = min(abs(xv.min()), abs(xv.max()), abs(yv.min()), abs(yv.max()))
+    k = rho <= rin * (1 - 1e-12)
+    w = np.cos(phi) + 2 * np.sin(phi)
+    tol = 1e-9 * max(rin, abs(dx))
+    if len(rho) != n or np.abs(avg - rho * w.mean())[k].max() > tol or np.abs(mx - rho * w.max())[k].max() > tol:
+        return 'azimuthal average / maximum of z = x + 2 y is not rho * mean / max (cos + 2 sin) about the origin sample'
+    return None
+
+
 def _symmetric(M, o):
     m, n = M.shape
     k0, k1 = min(o[0], m - 1 - o[0]), min(o[1], n - 1 - o[1])
@@ -1194,6 +1218,8 @@ def _session3(ctx, M, pairs, ns, shapes, rat):
             tol = 4 * np.finfo(xv.dtype).eps
             if abs(float(xv[k]) - vx) > tol * abs(vx) or abs(float(yv[k]) - vy) > tol * abs(vy):
                 ctx.disagree('vec_sample', {'shape': [m, n], 'dx': dx, 'k': k}, [float(xv[k]), float(yv[k])], [vx, vy])
+        if m >= 3 and n >= 3 and dx > 0:
+            _run_pred(ctx, 'slices_az', {'shape': [m, n], 'dx': dx}, nontrivial=True, tag=f'par{m % 2}{n % 2}')
         for what in ('r', 'support', 'exact'):
             for hist in ('fresh', 'copy_after_read', 'copy_before_read'):
                 if what == 'exact' and (m < 2 or n < 2):
@@ -1421,6 +1447,7 @@ def search(ctx, hints):
     for (m, n) in ((7, 8), (8, 7), (9, 9)):
         cases = [('autocrop', {'shape': [m, n], 'pos': [m // 2, n // 2], 'px': px}) for px in range(1, 6)] + \
                 [('autocrop', {'shape': [m, n], 'pos': [3, 4], 'px': 3}), ('autocrop', {'shape': [m, n], 'pos': [4, 3], 'px': 4})] + \
+                [('slices_az', {'shape': [m, n], 'dx': 0.5})] + \
                 [('richdata_derived', {'shape': [m, n], 'dx': 0.5, 'what': w, 'history': h, 'at': [1, -1]})
                  for w in ('r', 'support', 'exact') for h in ('fresh', 'copy_after_read')] + \
                 [('fourier_resample', {'shape': [m + 4, n + 4], 'zoom': list(z), 'form': f})
@@ -1493,7 +1520,11 @@ MANIFEST_ENTRY = {
              '(x from the column count, y from the row count); RichData.support_x / support_y are columns dx / rows dx = extent '
              'of the coordinate vector plus one sample; '
              '(12) fttools.fourier_resample (live statements): the shift pair around its FFT brings sample n//2 to FFT index 0 and '
-             'the zero-frequency bin back to n//2, and axis k of the output has int(shape[k] zoom[k]) samples. '
+             'the zero-frequency bin back to n//2, and axis k of the output has int(shape[k] zoom[k]) samples; '
+             '(13) three-valued AST facts: RichData.r / .t are the first / second result of cart_to_polar(x=self.x, y=self.y); the '
+             'polar cache of Slices is uniform_cart_to_polar(x=self._x, y=self._y, data=self._source); exact_x / exact_y '
+             'interpolate the (coordinates, values) pair of the x / y slice; exact_xy builds and queries its interpolator in '
+             '(y, x) = (row, column) order; for user-assigned coordinates (k - c0) dx the slice centre is c0. '
              'COMPARED ONLY (bounded enumeration on the real functions, integer-exact where integers are involved): NumPy plumbing '
              '(slicing, 12 np.pad modes and fill values, meshgrid, roll, argmin and center_of_mass in floating point) for all (n, N) '
              'up to 40 (quick) / 128 (thorough); integer / list / tuple out_shape, Q = 1 with out_shape, int64 / float32 / '
@@ -1510,9 +1541,9 @@ MANIFEST_ENTRY = {
              'exact_y / exact_xy at sample coordinates, also on copy(); fourier_resample keeps a centred Gaussian on the origin '
              'sample (8..19 / 39 per axis; the matrix DFT it calls belongs to C01/C03); pad2d on 1-D and 3-D arrays, tuple-of-NumPy-'
              'integer and ndarray out_shape; pad-pad / crop-crop compositions up to 9 / 13; centroid of random extended data and '
-             'symmetric blobs before / after zero padding. '
-             'NOT COVERED: dx = 0 (degenerate all-zero grid: Slices then takes index 0); Slices.azavg and the other azimuthal '
-             'statistics; the radius returned by estimate_size (only its coordinates); autocrop windows that leave the array; a '
+             'symmetric blobs before / after zero padding; Slices.azavg / azmax of z = x + 2 y (exact under linear interpolation). '
+             'NOT COVERED: dx = 0 (degenerate all-zero grid: Slices then takes index 0); the polar resampling behind Slices.az* '
+             'beyond its coordinate binding (compared exactly on linear data); the radius returned by estimate_size (only its coordinates); autocrop windows that leave the array; a '
              'NumPy integer SCALAR out_shape (pad2d / crop_center raise TypeError: a refusal, not a misplacement); non-NumPy '
              'backends; config.precision = float32 is tolerated by the comparisons but not swept.'),
     'note': ('Trusted: Lean kernel + propext/Classical.choice/Quot.sound; the ast->Lean translator (tools/gen_c04.py: its reading '
